@@ -105,6 +105,18 @@ def correspondence(chk, drv):
         qs2 = qs[:: max(1, len(qs) // 40)]
         c_dbm.add(f'dbm {f2b(bc)} {tab_line(rows)} {len(qs2)} ' + ' '.join(str(f2b(q)) for q in qs2),
                   ' '.join('f%d' % f2b(calc.drag_by_mach(q)) for q in qs2), name)
+        # the user TRUES the model's own table in place (the very list the solver has already seen: coefficients scaled from some Mach
+        # number up, a point replaced) and shoots again with the same calculator and the same model: the drag is that of the table NOW
+        if rng.random() < 0.5:
+            tab = dm.drag_table
+            m0, f = rng.choice([0.0, 0.9, 1.0, 1.5]), rng.uniform(1.02, 1.1)
+            for i, pt in enumerate(tab):
+                if pt.Mach >= m0:
+                    tab[i] = pbc.DragDataPoint(pt.Mach, pt.CD * f)
+            calc._init_trajectory(shot)
+            rows_now = [(pt.Mach, pt.CD) for pt in tab]
+            c_dbm.add(f'dbm {f2b(dm.BC)} {tab_line(rows_now)} {len(qs2)} ' + ' '.join(str(f2b(q)) for q in qs2),
+                      ' '.join('f%d' % f2b(calc.drag_by_mach(q)) for q in qs2), name + ' (trued in place)')
         if name.startswith('Table'):
             c_tab.add(f'table {name}', ' '.join(f'f{f2b(m)} f{f2b(c)}' for m, c in rows))
     for c in (c_cd, c_curve, c_dbm, c_tab):
@@ -153,6 +165,23 @@ def search(chk, broken):
 
         def cd(m):
             return calc.drag_by_mach(m) * bc / 2.08551e-04
+        # the model's own table trued in place between two shots with the SAME calculator and model: node values are those of the table now
+        dm_t = pbc.DragModel(bc, table)
+        shot_t = pbc.Shot(pbc.Weapon(), pbc.Ammo(dm_t, 800))
+        calc._init_trajectory(shot_t)
+        f_t = rng.uniform(1.03, 1.1)
+        for i, pt in enumerate(dm_t.drag_table):
+            dm_t.drag_table[i] = pbc.DragDataPoint(pt.Mach, pt.CD * f_t)
+        calc._init_trajectory(shot_t)
+        for pt in dm_t.drag_table[:: max(1, len(dm_t.drag_table) // 6)]:
+            evals += 1
+            got_t = calc.drag_by_mach(pt.Mach) * bc / 2.08551e-04
+            if abs(got_t - pt.CD) > 1e-9 * max(abs(pt.CD), max(abs(c) for _, c in rows)):
+                chk.failures.append(Failure('stale-curve', f'{name}: after the model\'s table was scaled by {f_t:.3f} in place, the same calculator uses cd({pt.Mach}) = {got_t}; '
+                                                           f'the table now says {pt.CD}',
+                                            {'op': 'cd-after-edit', 'table': name, 'mach': pt.Mach, 'observed': got_t, 'expected': pt.CD, 'factor': f_t}))
+                break
+        calc._init_trajectory(pbc.Shot(pbc.Weapon(), pbc.Ammo(pbc.DragModel(bc, table), 800)))
         xs = [m for m, _ in rows]
         for q in query_points(rng, xs, dense or rng.random() < 0.3):
             evals += 1
